@@ -66,6 +66,7 @@ def run(pid, tier, seed, njobs=None):
            "samples": [{"len": distinct[0]["ev"][-1]["len"], "items": distinct[0]["ev"][-1]["items"][:5]}] if distinct else [],
            "observations": nobs, "outcomes": outcomes, "rejected": len(v["rejected"]),
            "tlc_trace_validation": {"states": v["states"], "distinct": v["distinct"], "wall_s": round(v["wall"], 1)}}
+    lib.add_spec_coverage(cov, pid, tier)
     rc = verdict.finish()
     lib.write_evidence(pid, tier, seed, "model_checking", cov, time.time() - t0, len(verdict.violations),
                        ["the inspector reads the table while no operation is in flight", "TLC / SANY"])
